@@ -16,6 +16,7 @@ TRUSTED_BASE = [
 ]
 
 PROPERTY_META = {}
+CJ_UNWIND_LATE = ["cj_delete_0.0:6", "cj_delete_1.0:6", "cj_delete_2.0:5", "cj_delete_3.0:5", "cj_dup_0.0:4", "cj_dup_1.0:4", "cj_dup_2.0:4"]
 CJ_ASSUME_LATE = ["cJSON: executable model stubs/cjson_model.h (assumed contract of the vendored library)"]
 NOT_APPLICABLE = {}
 NOTES = ("Every check rebuilds its verification units from /repo's working tree (wrapper TUs include the real "
@@ -119,6 +120,19 @@ def ht_units(order, kind, tier):
                  functions=["%s_<name> (order %d, %s keys)" % (fn, order, kind)], expect_tags=[tag], timeout=600, **c2)
 
 
+def ht_closer_units(order, kind, f, tier):
+    tags = ["C17.closer.no-candidate-changes-nothing", "C17.closer.gives-up-only-when-no-entry-can-move", "C17.closer.hole-moves-closer-to-the-home", "C17.closer.new-hole-is-unreferenced",
+            "C17.closer.inv-A-preserved-at-an-arbitrary-bit", "C17.closer.inv-B-preserved-at-an-arbitrary-slot", "C17.closer.inv-C-preserved-at-an-arbitrary-pair",
+            "C17.closer.every-entry-keeps-its-key-and-value", "C17.closer.no-entry-appears"]
+    for i, tag in enumerate(tags):
+        unit("ht.closer.%s.o%d.f%d.%d" % (kind, order, f, i + 1), ["C17"], "units/ht.c", entry="h_ht_closer", tier=tier, solver="cadical", unwind=64, kind="proof",
+             defines=["HT_ORDER=%d" % order, "HT_KIND=%d" % HT_KINDS[kind], "HT_F=%d" % f, "HT_ONLY=%d" % (i + 1)], shared_tags=True,
+             bound="table order %d, free position %d (rotation symmetry: one position stands for all - assumption)" % (order, f),
+             functions=["find_closer_entry_<name> (order %d, %s keys)" % (order, kind)], expect_tags=[tag], timeout=2400, mem_gb=20,
+             assumes=["window-based invariant with ghost indices (universal generalisation)", "uninterpreted hash", "rotation symmetry of the table for the choice of the free position"])
+
+
+ht_closer_units(7, "u32", 5, "thorough")
 ht_units(2, "u32", "quick")
 ht_units(3, "u32", "quick")
 
@@ -128,7 +142,7 @@ ht_units(3, "u32", "quick")
 MATCH_FNS = ["equals_match", "contains_match", "startswith_match", "endswith_match", "equalsnot_match", "containsallof_match"]
 for _w in range(12):
     _fn = MATCH_FNS[_w % 6] + ("_ignore_case" if _w >= 6 else "")
-    unit("match.fn.%s" % _fn, ["C16"], "units/match_fn.c", entry="h_match_fn", kind="bounded",
+    unit("match.fn.%s" % _fn, ["C16", "C01"], "units/match_fn.c", entry="h_match_fn", kind="bounded", shared_tags=True,
          bound="path <= 4 bytes, operands <= 3 bytes, containsAllOf <= 2 operands, all byte values (thorough: 6/4)",
          unwind=8, defines=["MS_WHICH=%d" % _w], defines_thorough=["MS_PLEN=6", "MS_OLEN=4"], unwind_thorough=10, functions=[_fn],
          expect_tags=["C16.match.function-equals-reference-predicate"], timeout=300, solver="cadical",
@@ -137,6 +151,9 @@ unit("match.parse", ["C16", "C06"], "units/u_fetch_parse.c", entry="h_match_pars
      bound="rule objects of <= 3 members over 10 adversarial names x 6 JSON types, containsAllOf lists of <= 2 elements",
      unwind=20, functions=["create_fetch", "alloc_fetch", "add_matchers", "create_matcher", "fill_path_elements", "create_path_matcher", "free_matcher", "free_path_elements", "free_fetch"],
      expect_tags=["C16.parse.every-matcher-slot-filled", "C16.parse.unknown-name-or-wrong-operand-type-is-refused"], timeout=600, solver="cadical",
+     flags=["--memory-leak-check"], goto_instrument_args=["--value-set-fi-fp-removal"], assumes=CJ_ASSUME_LATE)
+unit("fetch.add", ["C02", "C01", "C06"], "units/u_fetch_parse.c", entry="h_fetch_add", unwind=12, cbmc_unwindset=CJ_UNWIND_LATE + ["cJSON_GetObjectItem.0:5"], functions=["add_fetch_to_peer", "get_fetch_id", "find_fetch", "ids_equal", "create_fetch", "alloc_fetch"],
+     shared_tags=True, expect_tags=["C02.fetch.refusal-answers-the-request-not-its-parameters", "C02.fetch.accepted-iff-well-formed-and-the-fetch-id-is-not-in-use"], timeout=300, solver="cadical",
      flags=["--memory-leak-check"], goto_instrument_args=["--value-set-fi-fp-removal"], assumes=CJ_ASSUME_LATE)
 unit("match.conj", ["C16", "C06"], "units/u_fetch_parse.c", entry="h_match_conj", unwind=4, functions=["state_matches"],
      expect_tags=["C16.conj.selected-iff-every-matcher-accepts"], timeout=300, solver="cadical", goto_instrument_args=["--value-set-fi-fp-removal"])
@@ -302,7 +319,7 @@ for _h, _props, _fns, _tags in (
         if _h in ("ownerdown", "bystander"):
             # the sweeps visit every slot: a 2-slot table keeps them small and still has a "last slot"
             _c = dict(_c, cfg="rt1", bound="routing table of 2 slots (order 1) holding <= 2 in-flight requests from 2 callers")
-        unit("rt.%s.%s" % (_h, _nm), _props, "units/u_router.c", entry="h_rt_" + _h, functions=_fns, expect_tags=_tags, **_c)
+        unit("rt.%s.%s" % (_h, _nm), _props + ["C02"], "units/u_router.c", entry="h_rt_" + _h, functions=_fns, expect_tags=_tags, shared_tags=True, **_c)
 
 
 # ------------------------------------------------------------------------------------------
